@@ -231,17 +231,27 @@ struct Slot {
 pub struct LocalExec {
   slots: RefCell<Vec<Slot>>,
   ready: RefCell<VecDeque<usize>>,
+  /// spawned since the executor last ran; like `LocalPool`'s `incoming` they
+  /// join the run queue - behind everything woken meanwhile - when it runs
+  incoming: RefCell<Vec<usize>>,
 }
 
 impl LocalExec {
-  fn spawn(&self, fut: LocalFutureObj<'static, ()>) {
+  fn spawn(&self, fut: LocalFutureObj<'static, ()>, shared: &Shared) {
+    let _ = shared;
     let mut slots = self.slots.borrow_mut();
     let id = slots.len();
     slots.push(Slot { fut: Some(fut), queued: true, polling: false, done: false });
-    self.ready.borrow_mut().push_back(id);
+    self.incoming.borrow_mut().push(id);
   }
 
   fn absorb_woken(&self, shared: &Shared) {
+    self.absorb_woken_only(shared);
+    let inc: Vec<usize> = std::mem::take(&mut *self.incoming.borrow_mut());
+    self.ready.borrow_mut().extend(inc);
+  }
+
+  fn absorb_woken_only(&self, shared: &Shared) {
     for id in shared.take_woken() {
       let mut slots = self.slots.borrow_mut();
       if let Some(s) = slots.get_mut(id) {
@@ -272,6 +282,13 @@ pub struct Ctx {
 
 thread_local! {
   static CTX: RefCell<Option<Ctx>> = const { RefCell::new(None) };
+  /// fidelity self-test only: local spawns are forwarded to a real
+  /// `futures::executor::LocalPool` instead of the simulated executor
+  static REAL_POOL: RefCell<Option<futures::executor::LocalSpawner>> = const { RefCell::new(None) };
+}
+
+pub fn set_real_pool(s: Option<futures::executor::LocalSpawner>) {
+  REAL_POOL.with(|p| *p.borrow_mut() = s);
 }
 
 pub fn ctx() -> Option<Ctx> {
@@ -470,6 +487,7 @@ impl World {
       drop(futs);
     }
     self.exec.ready.borrow_mut().clear();
+    self.exec.incoming.borrow_mut().clear();
   }
 }
 
@@ -491,9 +509,13 @@ impl LocalSpawn for SimSpawner {
   fn spawn_local_obj(&self, future: LocalFutureObj<'static, ()>) -> Result<(), SpawnError> {
     let c = ctx().expect("spawn outside a simulation");
     c.shared.stats.tasks_spawned.fetch_add(1, SeqCst);
+    let real = REAL_POOL.with(|p| p.borrow().clone());
+    if let Some(real) = real {
+      return real.spawn_local_obj(future);
+    }
     match c.mode {
       Mode::Des(exec) => {
-        exec.spawn(future);
+        exec.spawn(future, &c.shared);
         Ok(())
       }
       Mode::Thread(..) => panic!("local spawn from a simulated thread"),
@@ -512,7 +534,7 @@ impl Spawn for SimSpawner {
           // belongs to the pool
           ts.spawn_shared(future);
         } else {
-          exec.spawn(future.into());
+          exec.spawn(future.into(), &c.shared);
         }
         Ok(())
       }
